@@ -423,6 +423,14 @@ func feeQuotesBodiesNotes(sc scenario) ([]func(), *[]string, func()) {
 			} else {
 				readFee("Fee(m1,standard)", f)
 			}
+		case "FeeNobody":
+			if _, err := fqs.Fee("nobody", bt.FeeTypeStandard); err == nil {
+				note("Fee(nobody) succeeded for a miner nobody registered")
+			}
+		case "QuoteNobody":
+			if _, err := fqs.Quote("nobody"); err == nil {
+				note("Quote(nobody) succeeded for a miner nobody registered")
+			}
 		case "AddMiner":
 			fqs.AddMiner("m2", q2)
 		case "AddDefault":
@@ -532,12 +540,38 @@ func buildEngineCases() []engCase {
 			{name: "1 | RETURN before genesis, shared option", withShared: func(sh interpreter.ExecutionOptionFunc) []interpreter.ExecutionOptionFunc {
 				return []interpreter.ExecutionOptionFunc{interpreter.WithScripts(bscript.NewFromBytes([]byte{0x6a}), bscript.NewFromBytes([]byte{0x51})), sh}
 			}},
+			// many opcode families in one script (numbers incl. -1, arithmetic, splice, bitwise, hash,
+			// stack shuffles, alt stack), twice with different operands
+			{name: "opcode medley A", opts: func() []interpreter.ExecutionOptionFunc {
+				return []interpreter.ExecutionOptionFunc{interpreter.WithScripts(bscript.NewFromBytes(medley(0x05)), bscript.NewFromBytes([]byte{0x51})), interpreter.WithAfterGenesis()}
+			}},
+			{name: "opcode medley B", opts: func() []interpreter.ExecutionOptionFunc {
+				return []interpreter.ExecutionOptionFunc{interpreter.WithScripts(bscript.NewFromBytes(medley(0x09)), bscript.NewFromBytes([]byte{0x51})), interpreter.WithAfterGenesis()}
+			}},
 			{name: "two OP_ELSE (rejected after genesis)", opts: func() []interpreter.ExecutionOptionFunc {
 				return []interpreter.ExecutionOptionFunc{interpreter.WithScripts(bscript.NewFromBytes([]byte{0x63, 0x51, 0x67, 0x00, 0x67, 0x51, 0x68}), bscript.NewFromBytes([]byte{0x51})), interpreter.WithAfterGenesis()}
 			}},
 		}
 	})
 	return engCases
+}
+
+// medley is a script that ends with a true item and runs through many opcode families on the way.
+func medley(k byte) []byte {
+	return []byte{
+		0x4f, 0x8f, 0x75, // 1NEGATE NEGATE DROP
+		0x4f, 0x52, 0x80, 0x75, // -1 2 NUM2BIN DROP
+		0x01, k, 0x52, 0x95, 0x53, 0x96, 0x54, 0x97, 0x75, // k 2 MUL 3 DIV 4 MOD DROP
+		0x01, k, 0x8b, 0x8c, 0x90, 0x91, 0x92, 0x75, // 1ADD 1SUB ABS NOT 0NOTEQUAL DROP
+		0x02, k, 0x7f, 0x02, 0x01, k, 0x7e, 0x51, 0x7f, 0x7e, 0x82, 0x75, 0x75, // pushes CAT 1 SPLIT CAT SIZE DROP DROP
+		0x01, k, 0x01, 0x0f, 0x84, 0x01, 0x33, 0x85, 0x01, 0x55, 0x86, 0x83, 0x75, // AND OR XOR INVERT DROP
+		0x01, k, 0x51, 0x98, 0x51, 0x99, 0x75, // 1 LSHIFT 1 RSHIFT DROP
+		0x01, k, 0xa6, 0xa7, 0xa8, 0xa9, 0xaa, 0x75, // RIPEMD160 SHA1 SHA256 HASH160 HASH256 DROP
+		0x51, 0x52, 0x53, 0x7b, 0x7c, 0x7d, 0x6e, 0x6f, 0x70, 0x71, 0x72, 0x6d, 0x6d, 0x6d, 0x6d, 0x6d, 0x6d, 0x75, // ROT SWAP TUCK 2DUP 3DUP 2OVER 2ROT 2SWAP 2DROP x6 DROP
+		0x01, k, 0x6b, 0x6c, 0x76, 0x87, 0x69, // TOALT FROMALT DUP EQUAL VERIFY
+		0x01, k, 0x01, k, 0x9c, 0x69, 0x01, k, 0x52, 0xa0, 0x69, 0x01, k, 0x00, 0x01, 0x7f, 0xa5, 0x69, // NUMEQUAL VERIFY; k>2 VERIFY; WITHIN VERIFY
+		0x74, 0x00, 0x9c, // DEPTH 0 NUMEQUAL  -> true iff the stack is empty
+	}
 }
 
 func runEngine(sc scenario, prefix []int) execution {
@@ -758,7 +792,7 @@ func scenarios(thorough bool) []scenario {
 			}
 		}
 	}
-	fqs := []string{"Quote", "QuoteM2", "Fee", "AddMiner", "AddDefault", "Replace", "Update", "UpdateM2", "InnerAdd", "InnerFee"}
+	fqs := []string{"Quote", "QuoteM2", "Fee", "AddMiner", "AddDefault", "Replace", "Update", "UpdateM2", "InnerAdd", "InnerFee", "FeeNobody", "QuoteNobody"}
 	for i := 0; i < len(fqs); i++ {
 		for j := i; j < len(fqs); j++ {
 			out = append(out, scenario{Name: "pair", Kind: "feequotes", Threads: [][]string{{fqs[i]}, {fqs[j]}}})
@@ -769,6 +803,12 @@ func scenarios(thorough bool) []scenario {
 			}
 		}
 	}
+	// a failed lookup followed by a write on the same thread (an error path that keeps a lock shows as a deadlock)
+	for _, w := range []string{"AddMiner", "AddDefault", "Update", "Replace"} {
+		for _, l := range []string{"FeeNobody", "QuoteNobody"} {
+			out = append(out, scenario{Name: "lookup-then-write", Kind: "feequotes", Threads: [][]string{{l, w}, {"Fee"}}})
+		}
+	}
 	out = append(out,
 		scenario{Name: "engine-2", Kind: "engine", Threads: [][]string{{"exec0"}, {"exec1"}}},
 		scenario{Name: "engine-2b", Kind: "engine", Threads: [][]string{{"exec0"}, {"exec2"}}},
@@ -776,8 +816,11 @@ func scenarios(thorough bool) []scenario {
 		scenario{Name: "engine-2x2", Kind: "engine", Threads: [][]string{{"exec0", "exec3"}, {"exec2", "exec4"}}},
 		scenario{Name: "engine-3b", Kind: "engine", Threads: [][]string{{"exec4"}, {"exec1"}, {"exec0"}}},
 		scenario{Name: "engine-cond-2", Kind: "engine", Threads: [][]string{{"exec5"}, {"exec6"}}},
-		scenario{Name: "engine-cond-2x2", Kind: "engine", Threads: [][]string{{"exec5", "exec9"}, {"exec6", "exec5"}}},
-		scenario{Name: "engine-cond-3", Kind: "engine", Threads: [][]string{{"exec6"}, {"exec9"}, {"exec0"}}},
+		scenario{Name: "engine-cond-2x2", Kind: "engine", Threads: [][]string{{"exec5", "exec11"}, {"exec6", "exec5"}}},
+		scenario{Name: "engine-cond-3", Kind: "engine", Threads: [][]string{{"exec6"}, {"exec11"}, {"exec0"}}},
+		scenario{Name: "engine-medley-2", Kind: "engine", Threads: [][]string{{"exec9"}, {"exec10"}}},
+		scenario{Name: "engine-medley-same", Kind: "engine", Threads: [][]string{{"exec9"}, {"exec9"}}},
+		scenario{Name: "engine-medley-3", Kind: "engine", Threads: [][]string{{"exec10"}, {"exec0"}, {"exec9"}}},
 		scenario{Name: "engine-shared-option-2", Kind: "engine", Threads: [][]string{{"exec7"}, {"exec8"}}},
 		scenario{Name: "engine-shared-option-2x2", Kind: "engine", Threads: [][]string{{"exec7", "exec8"}, {"exec8", "exec7"}}},
 		scenario{Name: "engine-shared-option-3", Kind: "engine", Threads: [][]string{{"exec8"}, {"exec7"}, {"exec8"}}},
@@ -874,7 +917,7 @@ func main() {
 	r.Note("feequote_scenarios_with_a_single_outcome", singleOutcome)
 	r.Sample("schedule", map[string]any{"scenario": scs[13], "schedule": []int{0, 1, 0}})
 	r.Sample("schedule", map[string]any{"scenario": scs[len(scs)-2], "note": "engine: Execute has no lock operations; interleavings reduce to start orders, shared-state writes are caught by the happens-before monitor"})
-	os.Exit(r.Finish("stateless schedule exploration of the real fees.go / interpreter code (instrumented from the working tree at check time) under a cooperative scheduler: scheduling points before every Lock/RLock (a write lock first announces itself, modelling writer preference), at thread start and end; DFS over choice prefixes with iterative preemption bound 0,1,2 and then unbounded, every scenario explored to completion. Scenarios: every unordered pair of the 12 FeeQuote operations (incl. a transaction's fee being computed from the shared quote by the library) on 2 threads, triples of the 6 core operations on 3 threads, 2x2 combinations, every pair (thorough: triple) of 10 FeeQuotes operations incl. operations on the quote it hands out, and 2-3 threads calling Execute on one engine with distinct transactions (P2PKH spends, script-only runs, post-genesis conditionals, calls that share one option value). Oracles on every schedule: vector-clock happens-before race detection over EVERY access the type-checked instrumentation finds in packages bt, bscript and bscript/interpreter (struct fields reached through a pointer, package-level variables, locals aliasing a map/slice field) plus the harness's own reads of the *Fee values it is handed, deadlock, panics, linearizability against a plain-map sequential model (brute force over orders consistent with real time), every read returns a stored Fee/quote object reading as it was stored and no stored Fee object is modified in place, concurrent verdicts = sequential verdicts; recorded schedules replay deterministically (each finding is re-executed before it is reported)"))
+	os.Exit(r.Finish("stateless schedule exploration of the real fees.go / interpreter code (instrumented from the working tree at check time) under a cooperative scheduler: scheduling points before every Lock/RLock (a write lock first announces itself, modelling writer preference), at thread start and end; DFS over choice prefixes with iterative preemption bound 0,1,2 and then unbounded, every scenario explored to completion. Scenarios: every unordered pair of the 12 FeeQuote operations (incl. a transaction's fee being computed from the shared quote by the library) on 2 threads, triples of the 6 core operations on 3 threads, 2x2 combinations, every pair (thorough: triple) of 12 FeeQuotes operations incl. operations on the quote it hands out and lookups of an unregistered miner, failed lookups followed by writes, and 2-3 threads calling Execute on one engine with distinct transactions (P2PKH spends, script-only runs, post-genesis conditionals, scripts running through most opcode families, calls that share one option value). Oracles on every schedule: vector-clock happens-before race detection over EVERY access the type-checked instrumentation finds in packages bt, bscript and bscript/interpreter (struct fields reached through a pointer, package-level variables, locals aliasing a map/slice field) plus the harness's own reads of the *Fee values it is handed, deadlock, panics, linearizability against a plain-map sequential model (brute force over orders consistent with real time), every read returns a stored Fee/quote object reading as it was stored and no stored Fee object is modified in place, concurrent verdicts = sequential verdicts; recorded schedules replay deterministically (each finding is re-executed before it is reported)"))
 }
 
 // freeRun executes the scenario bodies without the scheduler (real mutexes, real
